@@ -14,6 +14,7 @@ package tlskdfeng
 import (
 	"bytes"
 	"fmt"
+	"io"
 	"math/rand/v2"
 	"net"
 	"strings"
@@ -72,7 +73,7 @@ func (e fpExt) String() string {
 	case "points":
 		return "points(" + hx(e.points) + ")"
 	case "ticket":
-		return "ticket(" + hx(e.ticket) + ")"
+		return fmt.Sprintf("ticket(%s,auto=%v)", hx(e.ticket), e.autopop)
 	case "sigalgs":
 		return fmt.Sprintf("sigalgs%04x", e.sigalgs)
 	}
@@ -108,7 +109,7 @@ func (e fpExt) build() ztls.ClientExtension {
 	case "points":
 		return &ztls.PointFormatExtension{Formats: append([]byte(nil), e.points...)}
 	case "ticket":
-		return &ztls.SessionTicketExtension{Ticket: append([]byte(nil), e.ticket...)}
+		return &ztls.SessionTicketExtension{Ticket: append([]byte(nil), e.ticket...), Autopopulate: e.autopop}
 	case "sigalgs":
 		return &ztls.SignatureAlgorithmExtension{SignatureAndHashes: append([]uint16(nil), e.sigalgs...)}
 	}
@@ -175,7 +176,19 @@ type fpConfig struct {
 	exts         []fpExt
 	serverName   string
 	sessionCache bool
+	// ClientFingerprintConfiguration.SessionCache / CacheKey / RandomSessionID
+	fpCache         int // 0 none, 1 empty cache, 2 cache holding a session the client may resume, 3 holding one with a suite that is not offered
+	cachedTicket    []byte
+	cachedSuite     uint16
+	randomSessionID int
 }
+
+var fpCacheNames = []string{"none", "empty", "resumable-session", "session-with-unoffered-suite"}
+
+// constKey is the CacheKeyGenerator of the generated configurations.
+type constKey struct{}
+
+func (constKey) Key(net.Addr) string { return "c29-peer" }
 
 func (f *fpConfig) describe() map[string]any {
 	var es []string
@@ -184,7 +197,8 @@ func (f *fpConfig) describe() map[string]any {
 	}
 	return map[string]any{"HandshakeVersion": fmt.Sprintf("0x%04x", f.version), "ClientRandom": hx(f.clientRandom), "ClientRandomNil": f.clientRandom == nil,
 		"InsertTimestamp": f.timestamp, "SessionID": hx(f.sessionID), "CipherSuites": fmt.Sprintf("%04x", f.suites), "CompressionMethods": "00",
-		"Extensions": es, "Config.ServerName": f.serverName, "Config.ClientSessionCache": f.sessionCache}
+		"Extensions": es, "Config.ServerName": f.serverName, "Config.ClientSessionCache": f.sessionCache,
+		"SessionCache": fpCacheNames[f.fpCache], "cached_ticket": hx(f.cachedTicket), "cached_suite": fmt.Sprintf("%04x", f.cachedSuite), "RandomSessionID": f.randomSessionID}
 }
 
 func genHost(r *rand.Rand) string {
@@ -244,6 +258,17 @@ func genFP(r *rand.Rand, suites []uint16, curves []uint16, pairs []uint16) *fpCo
 		f.serverName = genHost(r)
 	}
 	f.sessionCache = r.IntN(40) == 0
+	if r.IntN(3) == 0 {
+		f.fpCache = 1 + r.IntN(3)
+		f.cachedTicket = rbytes(r, []int{1, 32, 100, 200}[r.IntN(4)])
+		f.cachedSuite = f.suites[r.IntN(len(f.suites))]
+		if f.fpCache == 3 {
+			f.cachedSuite = 0x1301 // a TLS 1.3 suite id: never in the implemented TLS <= 1.2 table the list is drawn from
+		}
+		if r.IntN(2) == 0 {
+			f.randomSessionID = 1 + r.IntN(32)
+		}
+	}
 	// extension list: random subset, random order, NullExtensions interleaved
 	kinds := []string{"sni", "alpn", "reneg", "ems", "status", "sct", "curves", "points", "ticket", "sigalgs"}
 	r.Shuffle(len(kinds), func(i, j int) { kinds[i], kinds[j] = kinds[j], kinds[i] })
@@ -285,6 +310,7 @@ func genFP(r *rand.Rand, suites []uint16, curves []uint16, pairs []uint16) *fpCo
 			if r.IntN(2) == 0 {
 				e.ticket = rbytes(r, []int{1, 16, 100, 255, 256, 300, 1000}[r.IntN(7)])
 			}
+			e.autopop = r.IntN(2) == 0
 		case "sigalgs":
 			n := 1 + r.IntN(8)
 			if r.IntN(10) == 0 {
@@ -396,6 +422,20 @@ func flushHeldExts(c *core.Ctx, held *[]heldExt, before int) {
 	*held = keep
 }
 
+// flightConn is the client's end of the pipe. net.Pipe writes are synchronous, so
+// when the client turns to reading, everything it wrote has been recorded: the
+// first Read ends the exchange (the stub "closes"), whatever was sent. No parsing
+// decides when to stop, so a malformed flight cannot make the stub wait.
+type flightConn struct {
+	net.Conn
+	once sync.Once
+}
+
+func (f *flightConn) Read(p []byte) (int, error) {
+	f.once.Do(func() { f.Conn.Close() })
+	return 0, io.EOF
+}
+
 // firstFlight runs the client against the recording stub and returns the bytes it wrote.
 func firstFlight(cfg *ztls.Config) (wire []byte, herr error, pi *core.PanicInfo) {
 	a, b := net.Pipe()
@@ -406,18 +446,14 @@ func firstFlight(cfg *ztls.Config) (wire []byte, herr error, pi *core.PanicInfo)
 		for {
 			n, err := b.Read(tmp)
 			buf = append(buf, tmp[:n]...)
-			recs, _ := tlswire.ParseRecords(buf)
-			if msgs, _ := tlswire.LeadingHandshake(recs); len(msgs) > 0 || err != nil {
-				break
-			}
-			if len(recs) > 0 && recs[0].Type != tlswire.RecordHandshake {
+			if err != nil {
 				break
 			}
 		}
 		b.Close()
 		done <- buf
 	}()
-	client := ztls.Client(a, cfg)
+	client := ztls.Client(&flightConn{Conn: a}, cfg)
 	pi = core.Guard(func() { herr = client.Handshake() })
 	a.Close()
 	wire = <-done
@@ -435,6 +471,21 @@ func c29Case(c *core.Ctx, f *fpConfig, caseID string, salt uint64, held *[]heldE
 	for _, e := range f.exts {
 		fp.Extensions = append(fp.Extensions, e.build())
 	}
+	if f.fpCache > 0 {
+		fp.SessionCache, fp.CacheKey, fp.RandomSessionID = ztls.NewLRUClientSessionCache(4), constKey{}, f.randomSessionID
+		if f.fpCache >= 2 {
+			fp.SessionCache.Put(constKey{}.Key(nil), ztls.VerifFPNewClientSessionState(append([]byte(nil), f.cachedTicket...), f.version, f.cachedSuite, make([]byte, 48)))
+		}
+		c.Count("fingerprint_session_cache:"+fpCacheNames[f.fpCache], 1)
+	}
+	snapshot := func() []string {
+		out := []string{"SessionID=" + hx(fp.SessionID)}
+		for _, x := range fp.Extensions {
+			out = append(out, fmt.Sprintf("%T%+v", x, x))
+		}
+		return out
+	}
+	before := snapshot()
 	rnd := newDetRand(uint64(c.Seed)<<20|uint64(c.Shard), salt)
 	cfg := &ztls.Config{InsecureSkipVerify: true, ServerName: f.serverName, Rand: rnd, Time: func() time.Time { return c29Time }, ClientFingerprintConfiguration: fp}
 	if f.sessionCache {
@@ -468,6 +519,19 @@ func c29Case(c *core.Ctx, f *fpConfig, caseID string, salt uint64, held *[]heldE
 		defer func() { flushHeldExts(c, &mine, 0) }() // concurrent pair: judged after this client's whole handshake
 	}
 	wire, herr, pi := firstFlight(cfg)
+	// the caller's configuration object after the handshake: rewriting is not promised either way, so it is counted
+	if after := snapshot(); strings.Join(after, "|") != strings.Join(before, "|") {
+		c.Count("caller_configuration_rewritten", 1)
+		for i := range after {
+			if i < len(before) && after[i] != before[i] {
+				what := "SessionID"
+				if i > 0 {
+					what = f.exts[i-1].kind
+				}
+				c.Count("caller_configuration_rewritten:"+what, 1)
+			}
+		}
+	}
 	input["wire"] = hx(wire)
 	input["handshake_error"] = fmt.Sprint(herr)
 	if pi != nil {
@@ -534,7 +598,39 @@ func c29Case(c *core.Ctx, f *fpConfig, caseID string, salt uint64, held *[]heldE
 			masked[i] = 0
 		}
 	}
-	if !bytes.Equal(ch.SessionID, f.sessionID) {
+	// Autopopulate switches. Nothing documents SessionTicketExtension.Autopopulate beyond its name; the rules used:
+	//   Autopopulate false                         -> the configured Ticket is sent            (asserted)
+	//   Autopopulate true, no cache / empty cache  -> nothing to populate from: configured Ticket (asserted)
+	//   Autopopulate true, cache holds a session   -> the cached ticket may replace the configured one: either is accepted, counted
+	//   RandomSessionID > 0 and the cached ticket was sent ("a session resumption occurs", doc comment of RandomSessionID)
+	//                                              -> SessionID is that many fresh bytes from Config.Rand (asserted); otherwise the configured SessionID
+	exts := append([]fpExt(nil), f.exts...)
+	resumed := false
+	for i := range exts {
+		if exts[i].kind != "ticket" {
+			continue
+		}
+		combo := fmt.Sprintf("ticket:preset=%v,autopopulate=%v,cache=%s", len(exts[i].ticket) > 0, exts[i].autopop, fpCacheNames[f.fpCache])
+		c.Count(combo, 1)
+		if exts[i].autopop && f.fpCache >= 2 {
+			for _, w := range ch.Extensions {
+				if w.Type == tlswire.ExtSessionTicket && bytes.Equal(w.Data, f.cachedTicket) && !bytes.Equal(w.Data, exts[i].ticket) {
+					exts[i].ticket = f.cachedTicket
+					resumed = true
+					c.Count(combo+":cached-ticket-sent", 1)
+				}
+			}
+		}
+	}
+	if resumed && f.randomSessionID > 0 {
+		c.Count("random_session_id_on_resumption", 1)
+		if len(ch.SessionID) != f.randomSessionID || !bytes.Contains(rnd.handedOut(), ch.SessionID) {
+			fail("session-id:random-session-id-on-resumption", fmt.Sprintf("RandomSessionID=%d and the cached ticket was sent, wire session id %x is not %d bytes from Config.Rand", f.randomSessionID, ch.SessionID, f.randomSessionID))
+		}
+		for i := 39; i < 39+len(ch.SessionID) && i < len(masked); i++ {
+			masked[i] = 0
+		}
+	} else if !bytes.Equal(ch.SessionID, f.sessionID) {
 		fail("session-id", fmt.Sprintf("wire %x, configured %x", ch.SessionID, f.sessionID))
 	}
 	if fmt.Sprint(ch.CipherSuites) != fmt.Sprint(f.suites) {
@@ -548,9 +644,10 @@ func c29Case(c *core.Ctx, f *fpConfig, caseID string, salt uint64, held *[]heldE
 	var want [][]byte // per non-empty expected extension
 	var wantExt []fpExt
 	var sniWanted string
-	for _, e := range f.exts {
+	for _, e := range exts {
 		host := ""
 		if e.kind == "sni" {
+			c.Count(fmt.Sprintf("sni:autopopulate=%v,domains=%v,servername=%v", e.autopop, e.host != "", f.serverName != ""), 1)
 			switch {
 			case e.noAssert:
 				// take whatever is on the wire for this slot, if it is a server_name extension
@@ -627,7 +724,7 @@ func c29Case(c *core.Ctx, f *fpConfig, caseID string, salt uint64, held *[]heldE
 	} else {
 		got := dumpMsg(zm.V)
 		exp := map[string]any{
-			"vers": uint64(f.version), "sessionId": hx(f.sessionID), "compressionMethods": "00",
+			"vers": uint64(f.version), "sessionId": hx(ch.SessionID), "compressionMethods": "00", // the session id rule is judged above
 			"serverName": "", "alpnProtocols": []any{}, "secureRenegotiationSupported": false, "secureRenegotiation": "",
 			"extendedMasterSecret": false, "ocspStapling": false, "scts": false, "supportedCurves": []any{}, "supportedPoints": "",
 			"ticketSupported": false, "sessionTicket": "", "supportedSignatureAlgorithms": []any{},
@@ -640,7 +737,7 @@ func c29Case(c *core.Ctx, f *fpConfig, caseID string, salt uint64, held *[]heldE
 		if len(f.clientRandom) == 32 {
 			exp["random"] = hx(f.clientRandom)
 		}
-		for _, e := range f.exts {
+		for _, e := range exts {
 			switch e.kind {
 			case "sni":
 				exp["serverName"] = hx([]byte(sniWanted))
